@@ -1,6 +1,7 @@
 package main
 
 import (
+	"time"
 	"bytes"
 	"context"
 	"errors"
@@ -44,6 +45,9 @@ func (s ctxSpy) MarshalSlogObject(enc *slog.PrintCtx) error {
 }
 
 var errShared = errors.New("shared error value")
+
+// c08instant is the instant of the time-only calls
+var c08instant = time.Date(2031, 5, 6, 7, 8, 9, 0, time.UTC)
 
 func c08stress(c *Ctx) {
 	c.Each(func(idx int, r *gen.R) {
@@ -228,7 +232,7 @@ func c08stress(c *Ctx) {
 		log.Reset()
 		spyMu := &sync.Mutex{}
 		spyM := map[string]map[int]bool{}
-		var calls, ctxCalls, discarded int64
+		var calls, ctxCalls, discarded, timeOnly int64
 		blanks := make([]int64, nLog)
 		gotBlanks := make([]int64, nLog)
 		var wg sync.WaitGroup
@@ -270,6 +274,9 @@ func c08stress(c *Ctx) {
 					if gr.P(15) {
 						args = append(args, "serr", errorsv3.New("stack-carrying error of call %s", id)) // raised here, by this goroutine
 					}
+					// two attributes of an application type that implements slog.Attr by value and cannot be compared with ==
+					// (a func field), under keys that sort next to each other
+					args = append(args, c07lazyAttr{"lz1", func() any { return id }}, c07lazyAttr{"lz2", func() any { return id }})
 					if valuePos && lgs[li].f == FJSON {
 						args = append(args, "pay", sharedValueGroup, "lst", sharedValueList)
 					}
@@ -287,6 +294,26 @@ func c08stress(c *Ctx) {
 						}
 						atomic.AddInt64(&blanks[li], 1)
 						atomic.AddInt64(&calls, 1)
+						continue
+					}
+					if lgs[li].f != FJSON && marks[li] == "" && gr.P(4) {
+						// a call whose only attribute is an instant under the key "time" (it sorts after the logger's own keys
+						// unless those start with u-z): a record like any other, and no business of the records after it
+						msg = "t-" + id
+						if multiline {
+							msg += "\nl2-" + id
+							for x := 0; x < extraLines; x++ {
+								msg += fmt.Sprintf("\nl%d-%s", x+3, id)
+							}
+						}
+						l.Info(msg, "time", c08instant)
+						if lq != 1 {
+							mine[li] = append(mine[li], id)
+						} else {
+							atomic.AddInt64(&discarded, 1)
+						}
+						atomic.AddInt64(&calls, 1)
+						atomic.AddInt64(&timeOnly, 1)
 						continue
 					}
 					if gr.P(20) { // a call without arguments of its own: only the logger's attributes are printed
@@ -378,6 +405,7 @@ func c08stress(c *Ctx) {
 			}()}
 		c.R.Add("calls", calls)
 		c.R.Add("calls_routed_to_io_Discard", discarded)
+		c.R.Add("calls_whose_only_attribute_is_an_instant_called_time", timeOnly)
 		c.R.Add("calls_carrying_their_id_in_the_context", ctxCalls)
 		c.R.Add("write_events", int64(len(evs)))
 		c.R.Max("max_writes_in_flight", int64(log.MaxIn))
@@ -477,7 +505,11 @@ func c08judge(f Format, p []byte, ownKeys []string, multiline bool, extraLines i
 		return "", "does not decode: " + err.Error()
 	}
 	m := d.Msg
-	noArgs := strings.HasPrefix(m, "n-g") || strings.HasPrefix(m, "d-g")
+	timeOnly := strings.HasPrefix(m, "t-g")
+	noArgs := strings.HasPrefix(m, "n-g") || strings.HasPrefix(m, "d-g") || timeOnly
+	if timeOnly {
+		ownKeys = append(append([]string(nil), ownKeys...), "time")
+	}
 	withCtx := strings.HasPrefix(m, "c-g") || strings.HasPrefix(m, "d-g")
 	if !strings.HasPrefix(m, "m-g") && !strings.HasPrefix(m, "c-g") && !noArgs {
 		return "", "message does not start with m-<id> / n-<id> / c-<id> / d-<id>: " + q(clip(m, 80))
@@ -531,7 +563,7 @@ func c08judge(f Format, p []byte, ownKeys []string, multiline bool, extraLines i
 		}
 		return id, ""
 	}
-	want := map[string]string{"id": id, "a1": id + "-a1", "pc.id": id, "sg.a": "A", "sg.m": "M", "sg.z": "Z", "sg.q.b": "1", "sg.q.y": "2", "spy": "7"}
+	want := map[string]string{"lz1": id, "lz2": id, "id": id, "a1": id + "-a1", "pc.id": id, "sg.a": "A", "sg.m": "M", "sg.z": "Z", "sg.q.b": "1", "sg.q.y": "2", "spy": "7"}
 	if valuePos && f == FJSON {
 		for k, v := range map[string]string{"pay.vg.aa": "2", "pay.vg.mm": "3", "pay.vg.zz": "1", "lst.la": "2", "lst.lm": "3", "lst.lz": "1"} {
 			want[k] = v
